@@ -13,6 +13,7 @@ class Suite:
     def __init__(self):
         self.obligations = []
         self.errors = []
+        self.skipped = []
 
     def identity(self, name, got, want, angle=None, extra=(), what='', numeric=None, functions=()):
         """got / want: nested lists / arrays of sympy or numeric entries with equal shapes"""
@@ -88,8 +89,12 @@ class Suite:
         self.obligations.append({'name': name, 'what': what, 'ground': bool(holds), 'zero': [], 'vars': [],
                                  'functions': list(functions)})
 
+    def skip(self, name, reason):
+        """an obligation that cannot be stated in this environment (external library), reported"""
+        self.skipped.append({'name': name, 'reason': reason})
+
     def result(self):
-        return {'status': 'ok', 'obligations': self.obligations, 'errors': self.errors}
+        return {'status': 'ok', 'obligations': self.obligations, 'errors': self.errors, 'skipped': self.skipped}
 
 
 def numeric_witness(fn_got, fn_want, phases=(0.3, -0.77, 1.234)):
